@@ -438,52 +438,14 @@ def rule_r5(repo):
     init = repo.own_method('ScriptRunner', '__init__')
 
     class I(Interp):
+        """The constructor folded on a concrete script: the pragma lines are read by the repository's own process_pragma (however the
+        constructor and that method divide the work between them)."""
+        pragma_level = None
+
         def on_call(self2, text, callee, args, kwargs, node, frame):
             if text == 'process_embedded_query_expr':
-                return (Sym('CODE'), {})
-            if text == 'self.process_pragma':
-                s = frame.locals['self']
-                if self2.pragma_level is not None:
-                    s.fields['pragma']['data_values_nest_level'] = self2.pragma_level
-                self2.event('pragma')
-                return None
-            if text in ('compile', 'BufrMessageQuerent'):
-                return Top(text)
-            return self2.NOT_HANDLED
-    for arg, prag, want in ((None, None, 1), (None, 2, 2), (4, 2, 4), (0, None, 0), (0, 4, 0), (2, 0, 2)):
-        it = I(repo, 'ScriptRunner')
-        it.pragma_level = prag
-        res = it.run_function(init, lambda: {'self': Obj('ScriptRunner', {}), 'input_string': Sym('SRC'), 'data_values_nest_level': arg, 'mode': 'exec'},
-                              self_class='ScriptRunner')
-        rr.instance('argument %r, pragma %r -> level %r' % (arg, prag, want))
-        for r in res:
-            got = r.locals['self'].fields.get('pragma', {}).get('data_values_nest_level') if r.ok else r.describe()
-            if got != want:
-                rr.fail('pragma:precedence', init.where, 'argument %r with pragma %r gives level %r (expected %r)' % (arg, prag, got, want))
-    # two runners created one after the other in one interpreter (module- and class-level objects are shared, as at run time): what the
-    # first one was given must not become the default of the second, nor may the second change the first
-    it = I(repo, 'ScriptRunner')
-    made = []
-    for arg, prag in ((4, None), (None, None), (None, 2), (None, None)):
-        it.pragma_level = prag
-        res = it.run_function(init, lambda: {'self': Obj('ScriptRunner', {}), 'input_string': Sym('SRC'), 'data_values_nest_level': arg, 'mode': 'exec'},
-                              self_class='ScriptRunner')
-        oks = [r for r in res if r.ok]
-        if len(oks) != 1:
-            raise AnalysisError('ScriptRunner.__init__ does not fold to one path (%s)' % [r.describe() for r in res])
-        made.append((arg, prag, oks[0].locals['self']))
-    rr.instance('four runners in one process: levels stay per runner')
-    want_levels = [4, 1, 2, 1]
-    got_levels = [o.fields.get('pragma', {}).get('data_values_nest_level') if isinstance(o.fields.get('pragma'), dict) else o.fields.get('pragma') for _, _, o in made]
-    if got_levels != want_levels:
-        rr.fail('pragma:shared-between-runners', init.where, 'runners created with (argument, pragma) = %s end up with levels %s (expected %s): the level of one runner '
-                'leaks into another through a shared object' % ([(a, p) for a, p, _ in made], got_levels, want_levels))
-    # process_pragma: only leading `#$` lines, keys restricted to known pragmas
-    pp = repo.own_method('ScriptRunner', 'process_pragma')
-
-    class P(Interp):
-        def on_call(self2, text, callee, args, kwargs, node, frame):
-            if text == 'ast.literal_eval':
+                return (self2.script(), {})
+            if text == 'ast.literal_eval' or (isinstance(callee, UnknownMethod) and callee.name == 'literal_eval'):
                 a = args[0]
                 if isinstance(a, str):
                     try:
@@ -491,15 +453,71 @@ def rule_r5(repo):
                     except Exception:
                         raise Raise('ValueError', node, self2.where(node, frame))
                 return Top('literal')
+            if text in ('compile', 'BufrMessageQuerent'):
+                return Top(text)
             return self2.NOT_HANDLED
-    for code, want in (('#$ data_values_nest_level = 2\nx = 1', 2), ('x = 1\n#$ data_values_nest_level = 2', 1), ('#$ data_values_nest_level=4\n#$ other = 3\n', 4),
-                       ('#$ unknown = 5\nprint(1)', 1), ('', 1), ('# plain comment\n#$ data_values_nest_level = 0', 1)):
-        it = P(repo, 'ScriptRunner')
-        res = it.run_function(pp, lambda: {'self': Obj('ScriptRunner', {'code_string': code, 'pragma': {'data_values_nest_level': 1}})}, self_class='ScriptRunner')
-        rr.instance('process_pragma(%r) -> %r' % (code, want))
+
+        def script(self2):
+            return ('#$ data_values_nest_level = %d\nx = 1\n' % self2.pragma_level) if self2.pragma_level is not None else 'x = 1\n'
+
+        def on_while(self2, node, frame):
+            return self2.unroll_while(node, frame, 80)
+
+    def level_of(o):
+        p = o.fields.get('pragma')
+        if not isinstance(p, dict) or 'data_values_nest_level' not in p:
+            raise AnalysisError('ScriptRunner keeps its nest level in %r, not in self.pragma[\'data_values_nest_level\']: the rule cannot read it' % (p,))
+        return p['data_values_nest_level']
+    # (0 is a legal level: it must win as argument and as pragma, and must not be mistaken for "not given")
+    for arg, prag, want in ((None, None, 1), (None, 2, 2), (4, 2, 4), (0, None, 0), (0, 4, 0), (2, 0, 2), (None, 0, 0), (None, 4, 4), (None, 1, 1), (1, 0, 1), (0, 0, 0)):
+        it = I(repo, 'ScriptRunner')
+        it.pragma_level = prag
+        res = it.run_function(init, lambda: {'self': Obj('ScriptRunner', {}), 'input_string': it.script(), 'data_values_nest_level': arg, 'mode': 'exec'},
+                              self_class='ScriptRunner')
+        rr.instance('argument %r, pragma %r -> level %r' % (arg, prag, want))
         for r in res:
-            got = r.locals['self'].fields['pragma'].get('data_values_nest_level') if r.ok else r.describe()
-            extra = set(r.locals['self'].fields['pragma']) - {'data_values_nest_level'} if r.ok else set()
+            got = level_of(r.locals['self']) if r.ok else r.describe()
+            if got != want:
+                rr.fail('pragma:precedence', init.where, 'argument %r with pragma %r gives level %r (expected %r)' % (arg, prag, got, want),
+                        witness={'argument': arg, 'pragma': prag})
+    # two runners created one after the other in one interpreter (module- and class-level objects are shared, as at run time): what the
+    # first one was given must not become the default of the second, nor may the second change the first
+    it = I(repo, 'ScriptRunner')
+    made = []
+    for arg, prag in ((4, None), (None, None), (None, 2), (None, None)):
+        it.pragma_level = prag
+        res = it.run_function(init, lambda: {'self': Obj('ScriptRunner', {}), 'input_string': it.script(), 'data_values_nest_level': arg, 'mode': 'exec'},
+                              self_class='ScriptRunner')
+        oks = [r for r in res if r.ok]
+        if len(oks) != 1:
+            raise AnalysisError('ScriptRunner.__init__ does not fold to one path (%s)' % [r.describe() for r in res])
+        made.append((arg, prag, oks[0].locals['self']))
+    rr.instance('four runners in one process: levels stay per runner')
+    want_levels = [4, 1, 2, 1]
+    got_levels = [level_of(o) for _, _, o in made]
+    if got_levels != want_levels:
+        rr.fail('pragma:shared-between-runners', init.where, 'runners created with (argument, pragma) = %s end up with levels %s (expected %s): the level of one runner '
+                'leaks into another through a shared object' % ([(a, p) for a, p, _ in made], got_levels, want_levels))
+    # pragma lines: only leading `#$` lines count, unknown keys are ignored (the whole constructor folded on concrete scripts, so that
+    # it does not matter whether process_pragma writes the setting itself or hands it back to the constructor)
+    pp = repo.own_method('ScriptRunner', 'process_pragma')
+
+    class P(I):
+        code = ''
+
+        def script(self2):
+            return self2.code
+    for code, want in (('#$ data_values_nest_level = 2\nx = 1', 2), ('x = 1\n#$ data_values_nest_level = 2', 1), ('#$ data_values_nest_level=4\n#$ other = 3\n', 4),
+                       ('#$ unknown = 5\nprint(1)', 1), ('', 1), ('# plain comment\n#$ data_values_nest_level = 0', 1),
+                       ('#$ data_values_nest_level = 0\n#$ data_values_nest_level = 4\ny = 2', 4), ('#$ other = 3, data_values_nest_level = 2\n', 2)):
+        it = P(repo, 'ScriptRunner')
+        it.code = code
+        res = it.run_function(init, lambda: {'self': Obj('ScriptRunner', {}), 'input_string': code, 'data_values_nest_level': None, 'mode': 'exec'}, self_class='ScriptRunner')
+        rr.instance('script %r -> level %r' % (code, want))
+        for r in res:
+            got = level_of(r.locals['self']) if r.ok else r.describe()
+            p_ = r.locals['self'].fields.get('pragma') if r.ok else {}
+            extra = set(p_) - {'data_values_nest_level'} if isinstance(p_, dict) else set()
             if got != want or extra:
                 rr.fail('pragma:parsing', pp.where, 'script %r sets the level to %r%s (expected %r; only leading #$ lines count, unknown keys are ignored)' % (
                     code, got, ' and adds keys %s' % sorted(extra) if extra else '', want))
